@@ -133,6 +133,23 @@ pub fn run(ctx: &Ctx) -> i32 {
         st.count(&format!("random_{name}"));
         check_case(ctx, st, &tcs, s);
     });
+    // medium-sized inputs: many / long test cases, many distinct symbols, long repeats, deep prefix chains
+    {
+        let n = if ctx.thorough { 6000 } else { 400 };
+        let names = ["ab", "abc", "mixed", "meta", "graph", "clusters", "case"];
+        let als: Vec<Vec<String>> = names.iter().map(|a| gen::alphabet(a)).collect();
+        par_for(&ctx.run, n, |i, st| {
+            let mut rng = Rng::new(seed, 0x11_0000 + i as u64);
+            let tcs = gen::medium_family(&mut rng, &als[i % als.len()]);
+            let tcs: Vec<String> = tcs.into_iter().filter(|t| !t.is_empty()).collect();
+            if tcs.is_empty() {
+                return;
+            }
+            st.count("medium_sized_inputs");
+            let s = if i % 3 == 0 { Settings::new(0) } else { gen::settings(&mut rng, ALLOWED & !CLASS_MASK) };
+            check_case(ctx, st, &tcs, s);
+        });
+    }
     // 4. single-scalar sweep
     let settings_sweep: Vec<u32> = if ctx.thorough { vec![0, CI, VERB, ESC, DIGIT, WORD, SPACE, NDIGIT, NWORD, NSPACE, REP, CI | VERB | ESC] } else { vec![0, CI, VERB, ESC] };
     let stride = if ctx.thorough { 1 } else { 37 };
